@@ -46,7 +46,7 @@ def esir_req(c, G, idx, li, infs, recs, impl=None, joint=None):
 
 def nonmarkov(ctx, drv):
     reqs, metas = [], []
-    for _ in range(ctx.scale(300, 4000)):
+    for _ in range(ctx.scale(800, 5000)):
         c = allsims.gen_case(ctx.rng, "fast_nonMarkov_SIR", nmax=ctx.scale(8, 10))
         if c["init"]["kind"] not in ("list", "single"):
             c["init"] = dict(kind="list", nodes=[0])
@@ -93,7 +93,7 @@ def fast_sir(ctx, drv):
     """both dispatch paths of fast_SIR with logged rules"""
     import EoN, EoN.simulation as sim
     reqs, metas = [], []
-    for _ in range(ctx.scale(200, 2500)):
+    for _ in range(ctx.scale(500, 3000)):
         c = allsims.gen_case(ctx.rng, "fast_SIR")
         if c["init"]["kind"] not in ("list", "single"):
             c["init"] = dict(kind="list", nodes=[0])
@@ -171,7 +171,7 @@ def fast_sir(ctx, drv):
 def builders(ctx, drv):
     import EoN, EoN.simulation as sim
     reqs, metas = [], []
-    for _ in range(ctx.scale(150, 2000)):
+    for _ in range(ctx.scale(300, 2000)):
         c = allsims.gen_case(ctx.rng, "fast_nonMarkov_SIR")
         c["init"] = dict(kind="list", nodes=ctx.rng.sample(range(c["n"]), ctx.rng.randint(1, min(2, c["n"]))))
         c["recs"] = [u for u in c["recs"] if u not in c["init"]["nodes"]]
@@ -225,7 +225,7 @@ def builders(ctx, drv):
             ctx.violation("percolation builder differs from 'keep u->v iff delay<=duration': %s" % bad,
                           dict(rep, impl=impl, spec=dict(edges=specE, out=out_spec)))
     # directed_percolate_network / get_infected_nodes under scripted exponentials
-    for _ in range(ctx.scale(100, 1000)):
+    for _ in range(ctx.scale(200, 1500)):
         c = sims.graph_case(ctx.rng, 1, 8, weighted_e=ctx.rng.random() < 0.5, weighted_n=ctx.rng.random() < 0.5)
         G, lab = sims.build_graph(c)
         idx = gen.index_of(G)
